@@ -28,7 +28,7 @@ from gallia.transports import TargetURI  # noqa: E402
 
 from simkit.clock import EPOCH, TimeShim, make_datetime  # noqa: E402
 from simkit.logpump import Pumps  # noqa: E402
-from simkit.loop import SimLoop, SimStop, describe_pending  # noqa: E402
+from simkit.loop import SimLoop, SimSpin, SimStop, describe_pending, spin_count  # noqa: E402
 from simkit.net import SimNet  # noqa: E402
 from simkit.sqlite import SimSqlite  # noqa: E402
 from simkit.world import Recorder, Seams, seed_unseeded_rng  # noqa: E402
@@ -186,6 +186,7 @@ class CmdWorld:
         loop.stepcap = stepcap
         out: dict[str, Any] = {"kind": "return", "exit": None, "exc": None, "pending": []}
         runner = asyncio.Runner(loop_factory=lambda: loop)
+        spins0 = spin_count()
         try:
             try:
                 rv = runner.run(coro_factory())
@@ -210,6 +211,10 @@ class CmdWorld:
                 out["exit"] = 1
                 out["exc"] = e
         finally:
+            if spin_count() > spins0 and out["kind"] != "hung":
+                out["kind"] = "hung"
+                out["exc"] = SimSpin("a loop callback did not return (interrupted by the watchdog)")
+                out["pending"] = ["<a task span inside one callback>"]
             out["vtime"] = loop.time()
             out["steps"] = loop.steps
             out["unhandled"] = list(loop.unhandled)
